@@ -17,6 +17,7 @@ import (
 	"math"
 	"sort"
 	"sync"
+	"sync/atomic"
 	"testing"
 	"time"
 
@@ -121,6 +122,10 @@ type c01Model struct {
 	// non-trivial rule
 	sawPos    bool
 	recovered bool
+	// memo of the last visible() result (pure optimisation of the model)
+	memoOK           bool
+	memoG            int64
+	memoAcc, memoTot int64
 }
 
 func c01NewModel(created time.Duration) *c01Model {
@@ -135,6 +140,14 @@ func (m *c01Model) record(now time.Duration, ok bool) {
 	if ok {
 		m.acc[g]++
 	}
+	if m.memoOK && g == m.memoG {
+		m.memoTot++
+		if ok {
+			m.memoAcc++
+		}
+	} else {
+		m.memoOK = false
+	}
 	if !m.any || g < m.minG {
 		m.minG = g
 	}
@@ -147,10 +160,14 @@ func (m *c01Model) record(now time.Duration, ok bool) {
 // visible: the last 40 buckets including the current one.
 func (m *c01Model) visible(now time.Duration) (acc, total int64) {
 	g := m.grid(now)
+	if m.memoOK && g == m.memoG {
+		return m.memoAcc, m.memoTot
+	}
 	for i := g - c01Buckets + 1; i <= g; i++ {
 		acc += m.acc[i]
 		total += m.tot[i]
 	}
+	m.memoOK, m.memoG, m.memoAcc, m.memoTot = true, g, acc, total
 	return
 }
 
@@ -265,6 +282,7 @@ type c01Interp struct {
 	classes  map[string]bool
 	fail     string
 	onWorker bool
+	rep      int // repetition index inside a burst op (for messages)
 }
 
 func (in *c01Interp) now() time.Duration { return time.Since(in.start) }
@@ -602,6 +620,7 @@ func c01InterpSeq(t *testing.T, c c01Case) (v kit.Verdict) {
 		}()
 		usedG := map[int]bool{}
 		step := func(i int, o c01Op) {
+			in.rep = 0
 			what := fmt.Sprintf("op %d %+v", i, o)
 			br, useHandle, nop := in.route(o)
 			idx := o.T % len(in.brks)
@@ -625,9 +644,7 @@ func c01InterpSeq(t *testing.T, c c01Case) (v kit.Verdict) {
 				}
 				for j := 0; j < n; j++ {
 					w := what
-					if n > 1 {
-						w = fmt.Sprintf("%s #%d", what, j)
-					}
+					in.rep = j
 					if !in.call(br, useHandle, nop, o, w) {
 						return
 					}
@@ -826,6 +843,9 @@ func c01InterpSeq(t *testing.T, c c01Case) (v kit.Verdict) {
 	sort.Strings(v.Classes)
 	if in.fail != "" {
 		v.Fail = in.fail
+		if in.rep > 0 {
+			v.Fail += fmt.Sprintf(" [repetition #%d of the op]", in.rep)
+		}
 	} else if !res.OK() {
 		v.Fail = "bubble: " + res.String()
 	}
@@ -934,7 +954,7 @@ func c01GenSeq(rt *rapid.T) c01Case {
 }
 
 func TestVerif_C01_model(t *testing.T) {
-	kit.Run(t, "C01", "breaker-model", kit.Opts{Quick: 1000, Thorough: 32000}, c01GenSeq,
+	kit.Run(t, "C01", "breaker-model", kit.Opts{Quick: 800, Thorough: 32000}, c01GenSeq,
 		func(c c01Case) kit.Verdict { return c01InterpSeq(t, c) })
 }
 
@@ -1412,4 +1432,148 @@ func c01GenPar(rt *rapid.T) c01PCase {
 func TestVerif_C01_parallel(t *testing.T) {
 	kit.Run(t, "C01", "breaker-parallel", kit.Opts{Quick: 3000, Thorough: 64000}, c01GenPar,
 		func(c c01PCase) kit.Verdict { return c01InterpPar(t, c) })
+}
+
+// ---------------------------------------------------------------- real-parallel stress (no bubble)
+
+// G goroutines hammer one breaker at the same real time. Every admitted call
+// must be in the window exactly once afterwards (the run is judged only when it
+// took less than 5 s of real time, so nothing can have aged out of the 10 s window).
+type c01SCase struct {
+	G     int  `json:"g"`
+	K     int  `json:"k"`
+	FailP int  `json:"fp"` // every FailP-th call of a goroutine fails (0: none)
+	Named bool `json:"named,omitempty"`
+	Allow bool `json:"allow,omitempty"`
+}
+
+var c01StressSeq int64
+
+func c01InterpStress(c c01SCase) (v kit.Verdict) {
+	t0 := time.Now()
+	var b Breaker
+	name := ""
+	if c.Named {
+		name = fmt.Sprintf("c01-stress-%d", atomic.AddInt64(&c01StressSeq, 1))
+	} else {
+		b = New()
+	}
+	var wg sync.WaitGroup
+	type tally struct{ okRuns, failRuns, rejected, bad int64 }
+	tallies := make([]tally, c.G)
+	handles := make([]Breaker, c.G)
+	startGate := make(chan struct{})
+	for g := 0; g < c.G; g++ {
+		g := g
+		wg.Add(1)
+		go func() {
+			defer wg.Done()
+			<-startGate
+			tl := &tallies[g]
+			bb := b
+			if c.Named {
+				bb = Get(name)
+			}
+			handles[g] = bb
+			for j := 0; j < c.K; j++ {
+				failing := c.FailP > 0 && j%c.FailP == c.FailP-1
+				if c.Allow {
+					p, err := bb.Allow()
+					if err != nil {
+						tl.rejected++
+						if err != ErrServiceUnavailable {
+							tl.bad++
+						}
+						continue
+					}
+					if failing {
+						tl.failRuns++
+						p.Reject("c01 stress")
+					} else {
+						tl.okRuns++
+						p.Accept()
+					}
+					continue
+				}
+				ran := false
+				err := bb.Do(func() error {
+					ran = true
+					if failing {
+						return c01ErrA
+					}
+					return nil
+				})
+				switch {
+				case !ran:
+					tl.rejected++
+					if err != ErrServiceUnavailable {
+						tl.bad++
+					}
+				case failing:
+					tl.failRuns++
+					if err != c01ErrA {
+						tl.bad++
+					}
+				default:
+					tl.okRuns++
+					if err != nil {
+						tl.bad++
+					}
+				}
+			}
+		}()
+	}
+	close(startGate)
+	wg.Wait()
+	for g := 1; g < c.G; g++ {
+		if handles[g] != handles[0] {
+			return v.Failf("goroutines racing on Get(%q) obtained different breakers", name)
+		}
+	}
+	acc, total, ok := c01Hist(handles[0])
+	elapsed := time.Since(t0)
+	if !ok {
+		return v.Failf("harness cannot reach the window")
+	}
+	var sum tally
+	for _, tl := range tallies {
+		sum.okRuns += tl.okRuns
+		sum.failRuns += tl.failRuns
+		sum.rejected += tl.rejected
+		sum.bad += tl.bad
+	}
+	v.NonTrivial = c.G > 1
+	if sum.rejected > 0 {
+		v.Classes = append(v.Classes, "rejections")
+	}
+	if c.Named {
+		v.Classes = append(v.Classes, "named")
+	}
+	if sum.bad != 0 {
+		return v.Failf("%d calls returned something else than the protected function's error / ErrServiceUnavailable", sum.bad)
+	}
+	if c.FailP == 0 && sum.rejected != 0 {
+		return v.Failf("%d calls rejected although every recorded outcome is a success", sum.rejected)
+	}
+	if elapsed > 5*time.Second {
+		v.Excluded = true
+		return v
+	}
+	if acc != sum.okRuns || total != sum.okRuns+sum.failRuns {
+		return v.Failf("after %d goroutines x %d calls: window (successes=%d,total=%d) != admitted calls (successes=%d,total=%d)",
+			c.G, c.K, acc, total, sum.okRuns, sum.okRuns+sum.failRuns)
+	}
+	return v
+}
+
+func TestVerif_C01_stress(t *testing.T) {
+	kit.Run(t, "C01", "breaker-stress", kit.Opts{Quick: 24, Thorough: 640}, func(rt *rapid.T) c01SCase {
+		return c01SCase{
+			G:     rapid.SampledFrom([]int{2, 4, 8, 16}).Draw(rt, "g"),
+			K:     rapid.SampledFrom([]int{1000, 5000, 20000}).Draw(rt, "k"),
+			FailP: rapid.SampledFrom([]int{0, 0, 2, 3, 10}).Draw(rt, "fp"),
+			Named: rapid.Bool().Draw(rt, "named"),
+			Allow: rapid.Bool().Draw(rt, "allow"),
+		}
+	}, c01InterpStress)
 }
